@@ -8,6 +8,7 @@ mkdir -p work tools/bin harness/bin evidence replays
 tools/bin/go2lean tools/go2lean/spec.json /repo lean/Sonic/Gen
 cp /repo/go.sum harness/go.sum
 (cd harness && go build -tags verif -o bin/harness .)
+python3 gen_lean_index.py
 # Build every proof module and both acceptors. A proof that does not check on the current tree is
 # reported by the corresponding ./check, not here.
 (cd lean && lake build Sonic sonicdrv sonicspec) || (cd lean && lake build sonicspec)
